@@ -34,6 +34,8 @@ LEAVES = {
     "radgrad": ('<radialGradient id="rg{i}" cx="50%" cy="50%" r="60%" fx="30%"><stop offset="10%" stop-color="white"/><stop offset="90%" stop-color="black" stop-opacity=".5"/></radialGradient>', '<circle cx="70" cy="30" r="16" fill="url(#rg{i})" transform="translate(3 4)"/>', False),
     "hrefgrad": ('<linearGradient id="tp{i}" gradientUnits="userSpaceOnUse" x1="10" x2="90"><stop offset="0" stop-color="#ff0"/><stop offset="1" stop-color="#0ff"/></linearGradient><linearGradient id="hg{i}" xlink:href="#tp{i}" y2="40" gradientTransform="rotate(10)"/>', '<ellipse cx="50" cy="20" rx="30" ry="10" fill="url(#hg{i})"/>', False),
     "hrefstray": ('<linearGradient id="hs{i}"><stop offset="0" stop-color="red" xlink:href="#y"/><stop offset="1" stop-color="blue"/></linearGradient>', '<path d="M60,60 L80,60 L80,80 Z" fill="url(#hs{i})" xlink:href="#q"/><g opacity=".5" xlink:href="#z"><rect x="1" y="80" width="5" height="5"/><rect x="3" y="82" width="7" height="7"/></g>', False),
+    "styledx": ("", '<rect x="3" y="30" width="20" height="20" style="/* base */ -inkscape-stroke:none; -webkit-filter:none;fill:lime ! important;; mix-blend-mode : normal;opacity:0.8 /* tail */"/>', False),
+    "gradanim": ('<linearGradient id="ga{i}"><stop offset="0" stop-color="red"><animate attributeName="offset" to="1" dur="2s"/></stop><set attributeName="x1" to="1"/><stop offset="1" stop-color="blue"/></linearGradient>', '<rect x="15" y="5" width="30" height="15" fill="url(#ga{i})"/>', True),
     "pathexp": ("", '<path d="M10,10 L2e-05,40 L-5e-05,20 7e-06 30 60 3e-07 Z" fill="red"/>', False),
     "gradinfpct": ('<linearGradient id="gi{i}" x1="-inf%" x2="1e999%"><stop offset="0" stop-color="red"/><stop offset="1" stop-color="blue"/></linearGradient>', '<rect x="15" y="45" width="50" height="15" fill="url(#gi{i})"/>', False),
     "nestedsvg": ("", '<svg x="10" y="10" width="40" height="30" viewBox="0 0 80 80"><rect x="-10" y="10" width="70" height="40" fill="brown"/></svg>', False),
